@@ -275,6 +275,27 @@ def run(rec):
                         Hn = np.asarray(Hn)
                         rec.check(Hn.shape == Hs.shape and np.allclose(Hn, Hs, atol=tol * scale), f'get_numpy_Hamiltonian(from_mpo={from_mpo}):dense' + fl,
                                   f'max dev {np.abs(Hn - Hs).max() if Hn.shape == Hs.shape else "shape"}', inp)
+                # undo_sort_charge=True: the basis of conserve=None; Site.perm is documented by OP_conserved = OP_nonconserved[ix_(perm, perm)]
+                P = np.ones((1, 1))
+                for st in sites:
+                    Ps = np.zeros((st.dim, st.dim))
+                    Ps[np.asarray(st.perm), np.arange(st.dim)] = 1.
+                    P = np.kron(P, Ps)
+                Hu_exp = P @ Hs @ P.T
+                for from_mpo in (True, False):
+                    ok, Hn = rec.guarded(f'get_numpy_Hamiltonian(from_mpo={from_mpo},undo_sort_charge=True):exception',
+                                         lambda: exact_diag.get_numpy_Hamiltonian(M, from_mpo=from_mpo, undo_sort_charge=True), inp)
+                    if ok:
+                        Hn = np.asarray(Hn)
+                        rec.check(Hn.shape == Hu_exp.shape and np.allclose(Hn, Hu_exp, atol=tol * scale),
+                                  f'get_numpy_Hamiltonian(from_mpo={from_mpo},undo_sort_charge=True):dense' + fl,
+                                  f'max dev {np.abs(Hn - Hu_exp).max() if Hn.shape == Hu_exp.shape else "shape"}', inp)
+                ok, Hsp = rec.guarded('get_scipy_sparse_Hamiltonian(undo_sort_charge=True):exception',
+                                      lambda: exact_diag.get_scipy_sparse_Hamiltonian(M, undo_sort_charge=True), inp)
+                if ok:
+                    Hd = np.asarray(Hsp.todense())
+                    rec.check(np.allclose(Hd, Hu_exp, atol=tol * scale), 'get_scipy_sparse_Hamiltonian(undo_sort_charge=True):dense' + fl,
+                              f'max dev {np.abs(Hd - Hu_exp).max()}', inp)
                 ok, Hsp = rec.guarded('get_scipy_sparse_Hamiltonian:exception',
                                       lambda: exact_diag.get_scipy_sparse_Hamiltonian(M, undo_sort_charge=False), inp)
                 if ok:
